@@ -416,11 +416,24 @@ int scan_from_with(var input, int pos, const char* fmt, var args) {
       }
       
       else if (strchr("diouxX", *fmt)) {
-        long tmp = 0;
-        int err = format_from(input, pos, fmt_buf, &tmp, &off);
+        int err = 0;
+        int64_t val = 0;
+        if (strpbrk(fmt_buf, "lhjzt")) {
+          long tmp = 0;
+          err = format_from(input, pos, fmt_buf, &tmp, &off);
+          val = tmp;
+        } else if (strchr("di", *fmt)) {
+          int tmp = 0;
+          err = format_from(input, pos, fmt_buf, &tmp, &off);
+          val = tmp;
+        } else {
+          unsigned int tmp = 0;
+          err = format_from(input, pos, fmt_buf, &tmp, &off);
+          val = tmp;
+        }
         if (err < 1) { throw(FormatError, "Unable to input Int!"); }
         pos += off;
-        assign(a, $I(tmp));
+        assign(a, $I(val));
       }
       
       else if (strchr("fFeEgGaA", *fmt)) {
